@@ -214,12 +214,7 @@ func (e *Env) ident(name string) (Val, types.Type) {
 	t := e.t
 	if b, ok := e.vars[name]; ok {
 		if b.v.P != nil && b.v.T == "" {
-			// bound to a location (free variable / pointer path): value is the load
-			if _, isPtr := b.ty.Underlying().(*types.Pointer); !isPtr || true {
-				r, rt := t.loadPath(e.st, b.v.P)
-				_ = rt
-				return Val{T: r}, b.ty
-			}
+			return e.locBound(b)
 		}
 		return b.v, b.ty
 	}
@@ -230,8 +225,7 @@ func (e *Env) ident(name string) (Val, types.Type) {
 	}
 	if b, ok := e.prm[name]; ok {
 		if b.v.P != nil && b.v.T == "" {
-			r, _ := t.loadPath(e.st, b.v.P)
-			return Val{T: r}, b.ty
+			return e.locBound(b)
 		}
 		return b.v, b.ty
 	}
@@ -802,4 +796,29 @@ func (t *fnTrans) seqOf(arr Term, elem types.Type) Term {
 	t.seqViews[key] = v
 	t.seqFacts = append(t.seqFacts, fmt.Sprintf("(forall ((qi Int)) (! (= (seq_at_%s %s qi) (select %s qi)) :pattern ((seq_at_%s %s qi))))", typeKey(elem), v, arr, typeKey(elem), v))
 	return v
+}
+
+// locBound: a name bound to a location. If the name has pointer type (an interior pointer such as
+// &c.inFlightPQ passed as receiver) the value is that pointer (non-nil; `*name` loads through the
+// location); otherwise (captured variable) the value is the content of the location.
+func (e *Env) locBound(b bound) (Val, types.Type) {
+	t := e.t
+	if pt, ok := b.ty.Underlying().(*types.Pointer); ok {
+		_, pty := t.loadPath(e.st, b.v.P)
+		if pty != nil && types.Identical(pt.Elem(), pty) {
+			key := fmt.Sprintf("%p", b.v.P)
+			if t.locPtrs == nil {
+				t.locPtrs = map[string]Term{}
+			}
+			pv, ok := t.locPtrs[key]
+			if !ok {
+				pv = t.fresh("locptr", "Int")
+				t.cons = append(t.cons, constraint{0, false, fmt.Sprintf("(< %s 0)", pv)})
+				t.locPtrs[key] = pv
+			}
+			return Val{T: pv, P: b.v.P}, b.ty
+		}
+	}
+	r, _ := t.loadPath(e.st, b.v.P)
+	return Val{T: r}, b.ty
 }
